@@ -50,6 +50,7 @@ func init() {
 
 type topField struct {
 	name     string
+	alias    string // the response name: fields are collected by response name, not by field name
 	position *ast.Position
 }
 
@@ -63,6 +64,7 @@ func retrieveTopFieldNames(selectionSet ast.SelectionSet) []*topField {
 			case *ast.Field:
 				fields = append(fields, &topField{
 					name:     selection.Name,
+					alias:    selection.Alias,
 					position: selection.GetPosition(),
 				})
 			case *ast.InlineFragment:
@@ -84,10 +86,10 @@ func retrieveTopFieldNames(selectionSet ast.SelectionSet) []*topField {
 	seen := make(map[string]bool, len(fields))
 	uniquedFields := make([]*topField, 0, len(fields))
 	for _, field := range fields {
-		if !seen[field.name] {
+		if !seen[field.alias] {
 			uniquedFields = append(uniquedFields, field)
 		}
-		seen[field.name] = true
+		seen[field.alias] = true
 	}
 	return uniquedFields
 }
